@@ -2108,6 +2108,16 @@ func (this *decodingTask) decode(res *decodingTaskResult) {
 	transform.SetSkipFlags(skipFlags)
 	var oIdx uint
 
+	// The stages are undone in buffers of the size of the output buffer. Make it as
+	// big as the forward chain may have needed for a block of this size: a stream
+	// written with stages that expand the data (it happens with older encoders) must
+	// decode whatever the previous use of this task's buffers was, i.e. for any
+	// number of jobs. The compressed data held by this buffer has been consumed.
+	if n := transform.MaxEncodedLen(int(this.blockLength)); len(data) < n {
+		data = make([]byte, n)
+		this.iBuffer.Buf = data
+	}
+
 	// Inverse transform
 	if _, oIdx, err = transform.Inverse(buffer[0:preTransformLength], data); err != nil {
 		// Error => return
